@@ -99,9 +99,10 @@ def do_step(step, root):
 
 
 def eligible(label):
-    """Fault sites of C02: everything except the .ch header writes."""
-    p = label.split(":", 1)[1]
-    if p.endswith(".ch") or ".ch->" in p:
+    """Fault sites of C02: everything except the *writing* of the .ch header (open / text writes /
+    close on a file named .ch).  Renames and unlinks of a .ch are publish/remove steps and count."""
+    op, _, p = label.partition(":")
+    if p.endswith(".ch") and (op.startswith("open-") or op in ("twrite", "write", "close")):
         return False
     return True
 
@@ -172,6 +173,11 @@ def _next_step(r, model, fs, ns, nfaults):
         st["keep_original"] = r.random() < 0.5
     if op in ("decompress", "inplace_cycle"):
         st["overwrite"] = model["bin"] != "absent"
+    if op == "decompress" and model["bin"] != "absent" and r.random() < 0.5:
+        # the naive retry: same call again although a (possibly partial) .bin is in the way; the
+        # documented behaviour is a refusal (ValueError from the dependency) that changes nothing
+        st["overwrite"] = False
+        st["expect_refusal"] = True
     if op == "to_scratch":
         # next to the cbin only when there is no (possibly tainted) .bin there already
         if model["bin"] == "tainted":
@@ -191,7 +197,7 @@ def _precond(st, model):
                 model.get("chunk_duration") == st.get("chunk_duration")
         return model["bin"] == "complete" and (model["cbin"] == "absent" or st.get("retry"))
     if op == "decompress":
-        return model["cbin"] == "complete" and (model["bin"] == "absent" or st.get("overwrite"))
+        return model["cbin"] == "complete" and (model["bin"] == "absent" or st.get("overwrite") or st.get("expect_refusal"))
     if op == "to_scratch":
         return model["cbin"] == "complete" and not (st.get("scratch_dir") is None and model["bin"] == "tainted")
     if op == "inplace_cycle":
@@ -303,6 +309,10 @@ def _run(plan, base):
                 rt = {k: v for k, v in st.items() if k != "fault"}
                 rt["fault"] = None
                 rt["retry"] = True
+                if rt["op"] == "decompress" and model["bin"] != "absent" and model["cbin"] == "complete":
+                    # first the naive retry (same call, the partial .bin in the way): documented to refuse
+                    nv = dict(rt, overwrite=False, expect_refusal=True)
+                    _exec_step(W, nv, model, log, stats, bump, plan["seed"], progress=True)
                 if rt["op"] in ("decompress", "inplace_cycle"):
                     rt["overwrite"] = model["bin"] != "absent"
                 if _precond(rt, model):
@@ -425,6 +435,11 @@ def _exec_step(W, st, model, log, stats, bump, seed, progress=False):
                 raise Violation("C02.R", f"{sig0}:scratch-meta", "no metadata copied next to the scratch file | " + ctx)
         if op == "inplace_cycle" and not (out["ok"]["same"] and out["ok"]["is_mtscomp"]):
             raise Violation("C02.T", f"{sig0}:cycle-read", "reads through the carried Reader differ across the in-place cycle | " + ctx)
+    elif fired is None and st.get("expect_refusal") and out is not None and "exc" in out:
+        # refused, as documented: then nothing may have changed
+        bump("probes", "naive_retry_refused")
+        if (after["bin"], after["cbin"]) != (before["bin"], before["cbin"]) or not W.ch.exists():
+            raise Violation("C02.A1", f"{sig0}:refusal-changed-disk", "the refused decompression changed the recording's files | " + ctx)
     elif fired is None:
         # the operation failed although no fault was injected
         raise Violation("C02.P" if progress else "C02.L", f"{sig0}:{'retry-' if progress else ''}fails:{(out or {}).get('exc')}",
